@@ -149,6 +149,7 @@ func flatKinds(cs [][]string) []string {
 
 func runC23(c *Ctx) {
 	runC23IntPairs(c, "C23.int-converters")
+	runC23Extra(c)
 	const pk = "common/codec"
 
 	// ------------------------------------------------------------ writer tables
@@ -947,4 +948,87 @@ func runC23IntPairs(c *Ctx, rule string) {
 		}
 	}
 	c.check(nBig == 2, rule, "big.Int: BigIntToBytes ↔ BigIntSetBytes", token.NoPos, "one encoder use, one decoder use", fmt.Sprintf("%d uses of the big-integer pair", nBig))
+}
+
+// runC23Extra: truncated input is an error of the format (never a clean EOF);
+// every nil-able kind is written through the nullable wrapper the decoder
+// mirrors; marshalled bytes are detached from the pooled encoder; a pooled
+// RLP container is returned to the pool with every field reset.
+func runC23Extra(c *Ctx) {
+	const pkg = "common/codec"
+	// (1) limitReader.Read
+	if f := c.mustFn(pkg, "limitReader", "Read"); f != nil {
+		n := 0
+		for _, e := range exitAlts(f) {
+			for _, fl := range flowsOf(e.Results[1], nil) {
+				if !strings.HasPrefix(render(fl.Src), "$r.reader.Read(") {
+					continue
+				}
+				n++
+				gs := append(append([]Guard{}, e.Guards...), fl.Guards...)
+				c.requireGuard("C23.truncated-input", "limitReader.Read passes the inner reader's error on", e.pos(), gs, wDiffer("it is not io.EOF", `^\$r\.reader\.Read\(.*\)#1$`, `^\*global:EOF$`))
+			}
+		}
+		if n == 0 {
+			c.undecided("C23.truncated-input", "limitReader.Read", f.Pos(), "the inner reader's error does not reach a result")
+		}
+	}
+	// (2) nil-able kinds
+	if f := c.mustFn(pkg, "encoderImpl", "encodeValue"); f != nil {
+		got := map[int64]bool{}
+		for _, cs := range c.calls(f, byCallee("(*common/codec.encoderImpl).encodeNullable")) {
+			for _, k := range []int64{int64(reflect.Interface), int64(reflect.Map), int64(reflect.Ptr), int64(reflect.Slice)} {
+				if _, ok := holdsAll(altGuards(cs.Instr.Block()), wEQ("kind", -k, t(1, `^\$0\.Kind\(\)$`))); ok {
+					got[k] = true
+				}
+			}
+		}
+		for _, k := range []reflect.Kind{reflect.Interface, reflect.Map, reflect.Ptr, reflect.Slice} {
+			c.check(got[int64(k)], "C23.nullable-kinds", "encodeValue writes a "+k.String()+" through the nullable wrapper", f.Pos(), "nil ↦ null", "a nil "+k.String()+" is not written as null: it decodes to a non-nil empty value (nil and empty are different values of the type)")
+		}
+	}
+	// (3) detached results
+	for _, nm := range []string{"MarshalToBytes", "UnmarshalFromBytes"} {
+		f := c.mustFn(pkg, "bytesWrapper", nm)
+		if f == nil {
+			continue
+		}
+		n := 0
+		for _, e := range successAlts(f) {
+			if isNilConst(e.Results[0]) {
+				continue
+			}
+			n++
+			call, ok := e.Results[0].(*ssa.Call)
+			c.check(ok && strings.HasSuffix(calleeName(call.Common()), "codec.bytesDup"), "C23.detached-bytes", nm+" returns a copy, not the pooled buffer", e.pos(), "bytesDup(...)", "returns "+render(e.Results[0])+": the buffer goes back to the pool and the next call overwrites bytes the caller still holds")
+		}
+		if n == 0 {
+			c.undecided("C23.detached-bytes", nm, f.Pos(), "no successful exit")
+		}
+	}
+	// (4) pooled container
+	al, fr := c.mustFn(pkg, "", "allocRLPParent"), c.mustFn(pkg, "", "freeRLPParent")
+	if al != nil && fr != nil {
+		set := map[string]string{}
+		for _, st := range fieldStoresAny([]*ssa.Function{al}, "rlpParent") {
+			set[fieldName(st.Addr.X.Type(), st.Addr.Field)] = "set on alloc"
+		}
+		for _, st := range fieldStoresAny([]*ssa.Function{fr}, "rlpParent") {
+			set[fieldName(st.Addr.X.Type(), st.Addr.Field)] = "reset on free"
+		}
+		for _, cs := range c.calls(fr, byMethod("Reset")) {
+			if render(cs.Common().Args[0]) == "$0.buffer" {
+				set["buffer"] = "Reset() on free"
+			}
+		}
+		st, _ := fr.Params[0].Type().Underlying().(*types.Pointer).Elem().Underlying().(*types.Struct)
+		if st == nil {
+			c.undecided("C23.pool-reset", "rlpParent", fr.Pos(), "struct type not found")
+		} else {
+			for i := 0; i < st.NumFields(); i++ {
+				fn := st.Field(i).Name()
+				c.check(set[fn] != "", "C23.pool-reset", "pooled rlpParent."+fn+" does not survive recycling", fr.Pos(), set[fn], "field "+fn+" is neither set by allocRLPParent nor reset by freeRLPParent: a recycled container starts with its predecessor's "+fn)
+			}
+		}
+	}
 }
